@@ -97,3 +97,40 @@ def build_props(PROPS):
         level_text='With the IDN conversion modelled as returning every int code, with or without an output buffer: is_utf8_domain returns -EEAV_IDN_ERROR, stores the code, calls no validator, frees the buffer exactly once (was_freed + CBMC double-free / leak checks); is_6531_email then sets no flag; eav_is_email records EEAV_IDN_ERROR with the library message for that code and re-establishes the object invariant, which is all the next call assumes (C13).',
         level_note='A7 (assumed library contract), A2.',
         trusted_base=TB_COMMON, technique=TECH)
+
+    SAFE = ['safe_is_822_local', 'safe_is_5321_local', 'safe_is_5322_local', 'safe_is_ascii_domain', 'safe_is_ipv4']
+    PROPS['C06'] = dict(
+        level='proof',
+        quick=ALL(SAFE) + ALL(['is_6531_local', 'utf8_decode_next', 'is_tld', 'is_ipaddr', 'is_utf8_domain', 'eav_is_email', 'eav_free', 'email_822_host', 'email_822_literal'], 'safety')
+              + ALL(['eav_init', 'eav_result_free', 'lifecycle']),
+        thorough=ALL(['is_ipv6', 'is_ipv6_len', 'is_special_domain_A', 'is_special_domain_B', 'email_5321_host', 'email_5322_host', 'email_6531_host', 'email_5321_literal', 'email_5322_literal', 'email_6531_literal', 'is_utf8_domain@idn', 'is_utf8_domain@idnkit'], 'safety')
+                 + ALL(['lifecycle@idn', 'lifecycle@idnkit', 'eav_init@idn', 'eav_init@idnkit']),
+        level_text='Union of the safety obligations CBMC instruments on the real code under contracts that describe every NUL-terminated input of every length: pointer validity of every access incl. look-behind cp[-1] and look-ahead cp[1]/cp[2]/end[-1] (the input object is exactly is_fresh(s, len+1)), pointer / signed overflow, shifts, division; frames (assigns: nothing but the result object / the eav_t / ghost state); a decreases clause bounded by the input length on every loop (linear termination); abort() unreachable; eav_init establishes every field later calls read; no leak / double free on a whole API history (lifecycle job) and in is_utf8_domain for every IDN outcome. The scanner jobs used here are safety-only variants whose invariants do not mention the functional specification.',
+        level_note='quick tier covers the scanners, decoder, is_tld, is_ipaddr, is_utf8_domain, the eav_* API and one e-mail function; is_ipv6, is_special_domain and the other e-mail functions / back ends are in the thorough tier (their functional jobs carry the same safety obligations and run in the quick tiers of C05 / C09 / C01). Not covered: stack depth, real libidn2 internals (A7), allocation failure (A2).',
+        trusted_base=TB_COMMON, technique=TECH)
+    PROPS['C09'] = dict(
+        level='proof', quick=ALL(['is_special_domain_A', 'is_special_domain_B', 'lemma_rank', 'lemma_rank_inst']), thorough=ALL(['email_822_host', 'is_utf8_domain']),
+        level_text='is_special_domain is proved for every valid host name of 1..253 bytes without root dot, any number / length / content of labels: job A (loop contracts over a dot-rank model of strchr) proves that the cursor reaches exactly the start of the second-to-last label (or the no-dot shortcut is taken iff there is no dot); job B proves that every comparison is made between a reserved word, its own length + 1 and the NUL-terminated copy of exactly the last / second-to-last label, and that the verdict is YES iff the last label is a reserved word or the last two are example.<com|net|org>, whatever the length of the second-to-last label; job lemma_rank proves the rank facts assumed by the strchr model.',
+        level_note='Composition of the two halves is by the shared cut predicate (asserted in A, assumed in B). strncasecmp is an oracle (A6): that a comparison over strlen+1 bytes is ASCII-case-insensitive equality of whole labels is glibc semantics. Slow: job B needs about 25 minutes and 18 GB.',
+        trusted_base=TB_COMMON, technique=TECH)
+    PROPS['C12'] = dict(
+        level='proof', quick=ALL(['lemma_local', 'is_5321_local', 'is_822_local', 'email_822_host', 'email_5321_host', 'email_5322_host']),
+        thorough=ALL(['is_5322_local', 'is_6531_local', 'email_822_literal', 'email_5321_literal', 'email_5322_literal']),
+        level_text='Each scanner is proved equal to its specification automaton (C02/C03 jobs); the cross-mode statements are then lemmas about the automata, proved loop-free over a symbolic (state, character) pair: without DQUOTE and backslash the four automata move in lock step through the unquoted states; every live transition of the 5321 automaton is a transition of the 822 automaton; the domain halves of the three ASCII e-mail functions are proved against one and the same contract text.',
+        level_note='The step from "each code equals its automaton" + "the automata agree" to "the codes agree" is a two-line meta-argument. Equality of the *error code* across modes (not only of the decision) is covered by the per-code postconditions only as far as they pin the code (C15), not as a cross-mode obligation.',
+        trusted_base=TB_COMMON, technique=TECH)
+    PROPS['C14'] = dict(
+        level='other',
+        quick=ALL(['static_scan']) + ALL(SAFE + ['utf8_decode_next', 'is_tld', 'is_utf8_domain', 'eav_is_email', 'eav_setup', 'eav_free'], 're:assigns|frees|is assignable'),
+        thorough=ALL(['is_6531_local', 'is_ipv6_len', 'email_822_host', 'email_6531_host', 'is_special_domain_A'], 're:assigns|frees|is assignable'),
+        level_text='This technique has no model of interleavings. What is proved is the absence of shared mutable state, from which race freedom and sequential equivalence follow by the standard disjoint-footprint argument (stated, not mechanised): every library function is checked by DFCC against an assigns clause that contains only objects reachable from its arguments, fresh allocations and ghost state (a write to a file-scope cache or counter fails an assigns obligation), and a scan of the goto symbol tables of all library translation units (three back ends) requires every static-lifetime object to be const (DFCC exempts function-local statics).',
+        level_note='The quantifier over schedules is not explored. Assumed: the IDN library and libc functions used are thread-safe.',
+        explanation='frame (assigns) obligations of the library functions discharged by CBMC/DFCC + symbol-table scan for mutable static-lifetime objects; schedule quantifier by meta-argument only',
+        trusted_base=TB_COMMON, technique='CBMC/DFCC frame conditions (assigns clauses) + goto symbol table scan; no interleaving semantics')
+    PROPS['C17'] = dict(
+        level='proof', quick=ALL(['lemma_local', 'options_scan', 'is_6531_local+rfc20', 'is_ascii_domain+underscore']),
+        thorough=ALL(['is_6531_local', 'is_ascii_domain']),
+        level_text='RFC6531_FOLLOW_RFC20: is_6531_local built with the option is proved equal to the automaton whose atom alphabet lacks # ^ ` { | } ~, and a lemma proves that this automaton differs from the default one exactly on those seven characters outside quotes. LABELS_ALLOW_UNDERSCORE: is_ascii_domain built with the option is proved equal to the host automaton with "_" as a letter. "Nothing else changes": the option macros occur in no other source file, and the Makefile defaults them OFF / maps ON to -D (text scan).',
+        level_note='RFC6531_FOLLOW_RFC5322 (mode 6531 judges ASCII local parts as mode 5322) is NOT covered: no job proves the scanner built with that option against the 5322 automaton. The option / Makefile facts are text scans, not proof obligations.',
+        trusted_base=TB_COMMON, technique=TECH)
+    NOT_APPLICABLE['C20'] = 'not built yet: the CLI (bin/main.c, bin/main.h, bin/utf8_decode.c) has no contract job so far; nothing is claimed'
